@@ -27,8 +27,20 @@ impl Prop for P {
             window_strategy(),
             any::<u16>(),
             prop::collection::vec(step_strategy(), 1..=n),
+            prop::bool::weighted(0.04),
         )
-            .prop_map(|(m, family, seed, initial, window, from_sel, steps)| Case { method: ALL_METHODS[m], family, seed, initial, window, from_sel, steps })
+            .prop_map(|(m, family, seed, initial, window, from_sel, mut steps, big)| {
+                if big {
+                    // long sources: few steps, no single-element batches
+                    steps.truncate(3);
+                    for st in &mut steps {
+                        if st.batch == compute::BatchSel::K1 || st.batch == compute::BatchSel::K3 {
+                            st.batch = compute::BatchSel::K17;
+                        }
+                    }
+                }
+                Case { method: ALL_METHODS[m], family, seed, initial, window, from_sel, steps, big }
+            })
             .boxed()
     }
 
@@ -41,7 +53,7 @@ impl Prop for P {
     }
 
     fn mandatory_labels() -> &'static [&'static str] {
-        &["resumed-at-index>0", "batch-boundary-inside-a-call", "reimported"]
+        &["resumed-at-index>0", "batch-boundary-inside-a-call", "reimported", "sources-longer-than-one-cursor-chunk"]
     }
 
     fn assumptions() -> Vec<String> {
